@@ -28,7 +28,7 @@ def has_negative_ttl(ops):
 
 
 class _Any:
-    """the semantics answers `n/a` outside its domain (a stanza with a negative wrapping-TTL bound, finding F14):
+    """the semantics answers `n/a` outside its domain (a hand-built stanza with a negative wrapping-TTL bound; the parser refuses those since the repair of F19):
     compares equal to every implementation result"""
     def __eq__(self, other):
         return True
@@ -53,7 +53,7 @@ class ACLStream(Stream):
             "[deny]; distinct = distinct op line")
 
     def norm_impl(self, op, impl):
-        # a decision the harness itself flagged as changed by the aliasing of finding F13 is reported through the
+        # a decision the harness itself flagged as changed by the aliasing of finding F18 (repaired; kept armed) is reported through the
         # predicate (marker + signature); it is not additionally counted as a model mismatch
         if "!VIOL:" in impl and impl.endswith("#" + SIG_ALIAS):
             return _Any()
